@@ -140,12 +140,21 @@ package bloom
 //@   modifies bf.msgFilterLoad.Filter[*]
 
 //@ func bloom.(*Filter).matchTxAndUpdate
-//@   requires held(bf.mtx) && bf.msgFilterLoad != nil && tx != nil && tx.msgTx != nil && len(bf.msgFilterLoad.Filter) <= 36000
+//@   requires held(bf.mtx) && tx != nil && tx.msgTx != nil
+//@   requires bf.msgFilterLoad != nil ==> len(bf.msgFilterLoad.Filter) <= 36000
 //@   requires forall k :: 0 <= k && k < len(tx.msgTx.TxOut) ==> tx.msgTx.TxOut[k] != nil
 //@   requires forall k :: 0 <= k && k < len(tx.msgTx.TxIn) ==> tx.msgTx.TxIn[k] != nil
 //@   ensures held(bf.mtx) && bf.msgFilterLoad == old(bf.msgFilterLoad)
 //@   modifies bf.msgFilterLoad.Filter[*], tx.txHash
 //@   loop 1 modifies bf.msgFilterLoad.Filter[*], tx.txHash
-//@   loop 1 invariant held(bf.mtx) && bf.msgFilterLoad == old(bf.msgFilterLoad) && tx.msgTx == old(tx.msgTx) && len(bf.msgFilterLoad.Filter) <= 36000
+//@   loop 1 invariant held(bf.mtx) && bf.msgFilterLoad == old(bf.msgFilterLoad) && tx.msgTx == old(tx.msgTx) && (bf.msgFilterLoad != nil ==> len(bf.msgFilterLoad.Filter) <= 36000)
 //@   loop 1 invariant forall k :: 0 <= k && k < len(tx.msgTx.TxOut) ==> tx.msgTx.TxOut[k] != nil
 //@   loop 1 invariant forall k :: 0 <= k && k < len(tx.msgTx.TxIn) ==> tx.msgTx.TxIn[k] != nil
+
+//@ func bloom.(*Filter).MatchTxAndUpdate
+//@   requires !held(bf.mtx) && tx != nil && tx.msgTx != nil
+//@   requires bf.msgFilterLoad != nil ==> len(bf.msgFilterLoad.Filter) <= 36000
+//@   requires forall k :: 0 <= k && k < len(tx.msgTx.TxOut) ==> tx.msgTx.TxOut[k] != nil
+//@   requires forall k :: 0 <= k && k < len(tx.msgTx.TxIn) ==> tx.msgTx.TxIn[k] != nil
+//@   ensures !held(bf.mtx)
+//@   modifies bf.mtx, bf.msgFilterLoad.Filter[*], tx.txHash
